@@ -52,9 +52,24 @@ func scale() int {
 	return EnvInt("VERIF_C17_SCALE", 1)
 }
 
+// jitter varies a number of rounds by -25%..+25% from the run's seed (VERIF_SEED), so that different
+// seeds exercise different overlaps.
+var jitterRng = NewRand(Seed())
+var jitterMu sync.Mutex
+
+func jitter(rounds int) int {
+	jitterMu.Lock()
+	defer jitterMu.Unlock()
+	r := rounds * (75 + jitterRng.Intn(51)) / 100
+	if r < 1 {
+		r = 1
+	}
+	return r
+}
+
 // hammer runs every function of fs concurrently, each `rounds` times from `copies` goroutines.
 func hammer(copies, rounds int, fs ...func(i int)) {
-	rounds *= scale()
+	rounds = jitter(rounds * scale())
 	var wg sync.WaitGroup
 	start := make(chan struct{})
 	for _, f := range fs {
@@ -76,7 +91,7 @@ func hammer(copies, rounds int, fs ...func(i int)) {
 // single runs f `rounds` times on ONE goroutine (an event stream, a periodic job); the returned
 // function waits for it.
 func single(rounds int, f func(i int)) (wait func()) {
-	rounds *= scale()
+	rounds = jitter(rounds * scale())
 	done := make(chan struct{})
 	go func() {
 		defer close(done)
